@@ -172,6 +172,7 @@ fn c_make_accessible<C: CellType + kani::Arbitrary>() {
         kani::assume(-R <= s && s < e && e <= R);
         let j = any_index();
         let before = view(&m, j);
+        let j_was_accessible = in_buffer(&m, j);
         let p0 = o0 as isize;
         let below = p0 + s < 0;
         let above = p0 + e > s0 as isize;
@@ -192,8 +193,12 @@ fn c_make_accessible<C: CellType + kani::Arbitrary>() {
         if !below && !above {
             assert!(m.buffer == b0 && m.size == s0 && m.offset == o0);
         }
-        // never shrinks
+        // never shrinks; a cell that was accessible stays accessible (the back ends rely on this:
+        // they probe only the far edge of their window after a move)
         assert!(m.size >= s0);
+        if j_was_accessible {
+            assert!(in_buffer(&m, j));
+        }
         // current_ptr addresses the logical cell 0
         if in_buffer(&m, 0) {
             assert!(m.current_ptr() == m.buffer.add(m.offset));
